@@ -148,12 +148,44 @@ func genC17(r *Rng, idx int, tier string) *World {
 	m := NewModel(w.Opts)
 	var ops []Op
 	hid := 5000
+	everLive := map[string]bool{}
 	for _, op := range w.Ops {
+		if op.K == "handle" {
+			// the base history was generated against a model without the woven-in twins
+			if v, _ := m.HandleVerdict(op.Pattern, op.Methods); v != 1 {
+				continue
+			}
+		}
 		ops = append(ops, op)
 		if !isAdmin(op.K) {
 			continue
 		}
 		applyModel(m, &op)
+		if op.K == "handle" {
+			everLive[op.Pattern] = true
+		}
+		// a pattern that differs only in parameter names from a route that is no longer live
+		// (removed entirely, or all its methods removed one by one) must be accepted
+		if r.Pct(25) {
+			var dead []string
+			for p := range everLive {
+				if m.Routes[p] == nil {
+					dead = append(dead, p)
+				}
+			}
+			sortStrings(dead)
+			if len(dead) > 0 {
+				if twin := renamePattern(r, pick(r, dead), w.Opts.Interceptors); twin != "" {
+					hid++
+					tw := Op{T: r.Intn(3), K: "handle", Pattern: twin, HID: hid, Methods: []string{pick(r, []string{"GET", "POST", "PUT"})}}
+					if v, _ := m.HandleVerdict(tw.Pattern, tw.Methods); v == 1 {
+						applyModel(m, &tw)
+						everLive[twin] = true
+						ops = append(ops, tw)
+					}
+				}
+			}
+		}
 		if !r.Pct(45) {
 			continue
 		}
@@ -250,6 +282,37 @@ func genC17(r *Rng, idx int, tier string) *World {
 	}
 	w.Ops = ops
 	return w
+}
+
+// renamePattern returns the pattern with every parameter renamed (sometimes with
+// the '-' flag toggled); "" if it has no parameters.
+func renamePattern(r *Rng, raw string, ics []string) string {
+	p, ok := ParsePattern(raw, ics)
+	if !ok {
+		return ""
+	}
+	var sb strings.Builder
+	changed := false
+	for _, t := range p.Tokens {
+		if t.Kind == PLit {
+			sb.WriteString(t.Text)
+			continue
+		}
+		changed = true
+		name := t.Name + "r"
+		if t.Ignore != r.Pct(25) {
+			name = "-" + name
+		}
+		if t.Rule != "" {
+			sb.WriteString("{" + name + ":" + t.Rule + "}")
+		} else {
+			sb.WriteString("{" + name + "}")
+		}
+	}
+	if !changed {
+		return ""
+	}
+	return sb.String()
 }
 
 func init() {
